@@ -1,9 +1,9 @@
 from common import COMMON_TB
 
 CFG = {
-    "technique": "Lean 4 theorems about the lease operations of the wtxmgr model on an arbitrary store + differential run of the real wtxmgr.Store (bdb file, build-tagged clock setter) against the model, with an independent Go ledger oracle",
-    "level_text": "The lease state machine (lease / other id refused / same id extends / free iff released or stored expiry reached, boundary included / unknown refused / sweep removes exactly the expired / confirmed spend clears / excluded from UnspentOutputs / Balance subtracts once) is proved in Lean for every store, id, instant and duration of the model; the model is tied to wtxmgr by an op-by-op differential run over generated histories (leases interleaved with receipts, spends, confirmations, reorgs, restarts; the instants e-1ns, e, e+1ns, e+-1s of every lease are visited).",
-    "level_note": "Since /repo 4c73b71 LockOutput rounds the expiry up to a whole second and returns what it stores: C12_expiry_exact, C12_expiry_bounds, C12_leased_until_returned_expiry (former finding F8; reverting the fix yields VIOLATION key=lock-result with replay). The lease events refine the Ledger's (C12_lease/_release/_sweep/_clock_refines_partial, C12_leased_refines_partial; partial: chain events are not covered by the refinement). Exclusion from Balance holds after every chain-consistent history (C12_excluded_balance, via C01's invariant). The clock is constant during one call (Go reads it several times). UPDATE: the chain events are now proved to preserve the relation too - Lemmas/RefLease.lean derives the `known` clause from the simulation relation (known_of_good / leaseRefines_of_good) and good_lease/_release/_sweep/_clock + good_history (Lemmas/RefAll.lean) show that LeaseRefines holds after EVERY chain-consistent history of events, so the `_partial` suffix of the five theorems is only historical (they are the per-event steps used by that proof).",
+    "technique": "Lean 4 theorems about the lease operations of the wtxmgr model on an arbitrary store + refinement of the lease bucket to the Ledger specification's leases after every chain-consistent history (via the store -> Ledger refinement of C01) + differential run of the real wtxmgr.Store (bdb file, build-tagged clock setter) against the model, with an independent Go ledger oracle",
+    "level_text": "The lease state machine (lease / other id refused / same id extends / free iff released or stored expiry reached, boundary included / unknown refused / sweep removes exactly the expired / confirmed spend clears / excluded from UnspentOutputs / Balance subtracts once) is proved in Lean for every store, id, instant and duration of the model. Against the Ledger: the relation LeaseRefines (bucket and ledger leases agree pointwise, stored seconds x 1e9 = instant handed to the caller; the store knows exactly the outputs the ledger allows to lease) is kept by each lease event (C12_lease/_release/_sweep/_clock_refines_partial) and holds after EVERY chain-consistent history of events, chain events and reorgs included (leaseRefines_of_good + good_history in Lemmas/RefLease.lean / RefAll.lean), so the lease queries agree with the ledger at every instant (C12_leased_refines_partial) and leased outputs are excluded from Balance after every such history (C12_excluded_balance). The model is tied to wtxmgr by an op-by-op differential run over generated histories (leases interleaved with receipts, spends, confirmations, reorgs, restarts; the instants e-1ns, e, e+1ns, e+-1s of every lease are visited).",
+    "level_note": "The five theorems C12_lease/_release/_sweep/_clock/_leased_refines_partial keep the suffix _partial for a technical reason only: the gap it named (chain events seen/confirmed/disconnected/abandoned preserving the `known` clause of LeaseRefines) is closed by known_of_good / leaseRefines_of_good (Lemmas/RefLease.lean: LeaseRefines follows from the simulation relation Good) together with good_lease/_release/_sweep/_clock and good_history (Lemmas/RefAll.lean: Good holds after every chain-consistent history). Those lemma files import Props/C12.lean and use the five theorems as their per-event steps, so restating them inside Props/C12.lean without the hypothesis would be an import cycle; the names are kept. C12_excluded_balance_partial is the store-level form (under C01's invariant) of C12_excluded_balance, which holds after every chain-consistent history of store calls (the invariant is proved reachable: inv_runCalls = C01_inv_reachable). Since /repo 4c73b71 LockOutput rounds the expiry up to a whole second and returns what it stores: C12_expiry_exact, C12_expiry_bounds, C12_leased_until_returned_expiry (former finding F8; reverting the fix yields VIOLATION key=lock-result with replay). What remains order-dependent: ListLockedOutputs is compared per outpoint (C12_list_exact), not as an ordered list. The clock is constant during one call (Go reads it several times).",
     "lean_props": ["BtcwVerif.Props.C12"],
     "engines": ["txstore"],
     "trusted_base": COMMON_TB + [
